@@ -28,8 +28,11 @@ class PollFuture(_Future):
         super(PollFuture, self).__init__()
         self._delegate = delegate
         self._executor = executor
-        self._delegate.add_done_callback(self._delegate_resolved)
+        # Register our own cleanup first: if the delegate is already done,
+        # the next line may register, poll and resolve this future at once,
+        # and it must then be deregistered from the executor.
         self.add_done_callback(self._clear_executor)
+        self._delegate.add_done_callback(self._delegate_resolved)
 
     def _delegate_resolved(self, delegate):
         assert delegate is self._delegate, "BUG: called with %s, expected %s" % (
